@@ -422,5 +422,8 @@ struct Instance {
 Image *load_image(const std::string &dir, const std::string &name);  // cached per host process
 void make_resident(Instance *in);
 void raw_copy(void *dst, const void *src, size_t n);
+// development aid (cov.cc): block coverage of the real code when VERIF_COV_DIR is set and the images are the cov variant
+void cov_register(const std::string &name, uintptr_t lo, uintptr_t hi);
+void cov_dump();
 
 }  // namespace sim
